@@ -81,6 +81,26 @@ def response_value(st, status, ct_sel, body):
     return Agg('http::Response', (Agg('http::StatusCode', (status,)), hm, body))
 
 
+BIN_OPS = [({'op': 'client_decode', 'kind': 'binary', 'status': 200, 'content_type': 'application/octet-stream', 'chunks': ['31']}, 'ok'),
+           ({'op': 'client_decode', 'kind': 'binary', 'status': 200, 'content_type': 'application/json', 'chunks': ['31']}, 'err'),
+           ({'op': 'client_decode', 'kind': 'binary', 'status': 204, 'content_type': None, 'chunks': []}, 'err'),
+           ({'op': 'client_decode', 'kind': 'optional_binary', 'status': 204, 'content_type': None, 'chunks': []}, 'ok'),
+           ({'op': 'client_decode', 'kind': 'optional_binary', 'status': 200, 'content_type': 'application/octet-stream', 'chunks': ['31']}, 'ok'),
+           ({'op': 'client_decode', 'kind': 'optional_binary', 'status': 200, 'content_type': 'text/plain', 'chunks': ['31']}, 'err'),
+           ({'op': 'client_decode', 'kind': 'unit', 'status': 204, 'content_type': None, 'chunks': []}, 'ok'),
+           ({'op': 'client_decode', 'kind': 'default', 'status': 204, 'content_type': None, 'chunks': []}, 'ok')]
+
+
+def battery_bin():
+    out = []
+    for (o, w), r in zip(BIN_OPS, replay([o for o, _ in BIN_OPS])):
+        for fl in ('blocking', 'async'):
+            got = r.get(fl, {})
+            if ('ok' in got) != (w == 'ok'):
+                out.append(f'{fl} {o}: {got} (expected {w})')
+    return out
+
+
 def run(rep, tier):
     NCH, L = (3, 2) if tier == 'quick' else (4, 2)
     rep.bounds['history'] = f'<= {NCH} stream items, each Ok(chunk of <= {L} symbolic bytes, empty chunks included) or Err(e_i); status in {list(STATUS)}; Content-Type absent or one of {[c.decode() for c in CT_CHOICES if c]}'
@@ -210,22 +230,24 @@ def run(rep, tier):
             np_ += 1
             rep.states += 1
             if is_abnormal(rv):
-                rep.violation(f'C18:{entry}:abnormal', f'{entry}: {rv!r}', {})
+                rep.structural(f'C18:{entry}:abnormal', f'{entry}: {rv!r}', {}, battery_bin)
                 continue
             is_ok = it.variant_of(rv, 'Ok')
             want = (ct == 3) if entry == 'decode_binary_response' else z3.Or(status == 204, ct == 3)
             m = dec.decide(f'{entry}:path{np_}:Ok<=>octet-stream(or 204)', s2, is_ok != want)
             if m is not None:
                 c = CT_CHOICES[m.eval(ct, True).as_long()]
-                rep.violation(f'C18:{entry}', f'{entry}: status {m.eval(status, True)} Content-Type {c!r}: accepted={z3.is_true(m.eval(is_ok, True))}', {'status': str(m.eval(status, True)), 'content_type': str(c)})
+                rep.structural(f'C18:{entry}', f'{entry}: status {m.eval(status, True)} Content-Type {c!r}: accepted={z3.is_true(m.eval(is_ok, True))}', {'status': str(m.eval(status, True)), 'content_type': str(c)}, battery_bin)
         finish_engine(rep, it)
     # reachability twins replayed natively
     ops = [{'op': 'client_decode', 'kind': 'value', 'status': 200, 'content_type': 'application/json', 'chunks': ['31', '', '32']},
            {'op': 'client_decode', 'kind': 'value', 'status': 200, 'content_type': 'application/json', 'chunks': ['31', '32', None]},
            {'op': 'client_decode', 'kind': 'value', 'status': 200, 'content_type': 'application/json; charset=utf-8', 'chunks': ['31']},
            {'op': 'client_decode', 'kind': 'value', 'status': 200, 'content_type': 'application/json', 'chunks': ['3120', '78']}]
+    for fail in battery_bin():
+        rep.violation('C18:native:binary', f'native twin: {fail}', {'native': fail})
     res = replay(ops)
-    rep.replayed += len(ops)
+    rep.replayed += len(ops) + len(BIN_OPS)
     want = [{'ok': '12'}, 'err', 'err', 'err']
     for o, r, w in zip(ops, res, want):
         for fl in ('blocking', 'async'):
